@@ -91,3 +91,19 @@ Fixpoint mmismatches_from (mci mcs : mtable) (i : nat) (cs : list mcase) : list 
   end.
 
 Definition mmismatches (mci mcs : mtable) (cs : list mcase) : list nat := mmismatches_from mci mcs 0 cs.
+
+(* ---- value ranges on columns of any dtype: values ranked by the harness (None = NaN) ---- *)
+
+(* column, queries (lo, hi, rows.indices as observed) *)
+Definition vcase := (list (option Z) * list (option (option Z) * option (option Z) * list Z))%type.
+
+Definition vcase_ok (c : vcase) : bool :=
+  forallb (fun q => let '(lo, hi, exp) := q in leqb Z.eqb (range_view (option Z) rank_le lo hi (fst c)) exp) (snd c).
+
+Fixpoint vmismatches_from (i : nat) (cs : list vcase) : list nat :=
+  match cs with
+  | [] => []
+  | c :: rest => if vcase_ok c then vmismatches_from (S i) rest else i :: vmismatches_from (S i) rest
+  end.
+
+Definition vmismatches (cs : list vcase) : list nat := vmismatches_from 0 cs.
